@@ -32,7 +32,7 @@ SPECS = [
  ("C11", "latest-per-task-ascending", S+"execution/version_index_queries.py", "  WHERE\n    task_identifier = ?\n  ORDER BY timestamp DESC\n  LIMIT 1", "  WHERE\n    task_identifier = ?\n  ORDER BY timestamp ASC\n  LIMIT 1"),
  ("C11", "latest-join-on-timestamp-only", S+"execution/version_index_queries.py", "    c.task_identifier = l.task_identifier\n    AND c.timestamp = l.timestamp", "    c.timestamp = l.timestamp"),
  ("C12", "insert-or-replace", S+"execution/version_index_queries.py", "  INSERT INTO version_index (\n    task_identifier,", "  INSERT OR REPLACE INTO version_index (\n    task_identifier,"),
- ("C12", "dirs-exist-ok", S+"cli/restore.py", "            shutil.copytree(src_task_path, dest_task_path)", "            shutil.copytree(src_task_path, dest_task_path, dirs_exist_ok=True)"),
+ ("C12", "dirs-exist-ok", S+"cli/restore.py", "            shutil.copytree(src_task_path, dest_task_path, symlinks=True)", "            shutil.copytree(src_task_path, dest_task_path, symlinks=True, dirs_exist_ok=True)"),
  ("C12", "commit-before-copy", S+"cli/restore.py", "        # Copy over all archived task outputs\n", "        ctx.version_index.commit_changes()\n        # Copy over all archived task outputs\n"),
  ("C13", "descend-into-task-dirs", S+"cli/gc.py", "                if _REGULAR_TASK_REGEX.match(inner.name) is None:\n                    # If this directory is not a Conductor task directory, we\n                    # should \"explore\" it.\n                    stack.append(inner)", "                stack.append(inner)"),
  ("C13", "dry-run-deletes", S+"cli/gc.py", "                print(\"Would delete\", str(_relative_to_if_possible(exp_path, cwd)))", "                print(\"Would delete\", str(_relative_to_if_possible(exp_path, cwd)))\n                shutil.rmtree(exp_path, ignore_errors=True)"),
